@@ -27,6 +27,32 @@ def level_of(sid):
     return len(sid) - len(sid.lstrip('.'))
 
 
+def history_to(table, X):
+    """Shortest legal section history (list of ids starting with 'diffx') after which X may come."""
+    if X == 'diffx':
+        return []
+    from collections import deque
+    q = deque([['diffx']])
+    seen = {'diffx'}
+    while q:
+        h = q.popleft()
+        if X in table.get(h[-1], ()):
+            return h
+        for n in sorted(table.get(h[-1], ())):
+            if n not in seen:
+                seen.add(n)
+                q.append(h + [n])
+    return None
+
+
+def history_ending_in(table, prev):
+    """Shortest legal history ending in the section id ``prev``."""
+    if prev == 'diffx':
+        return ['diffx']
+    h = history_to(table, prev)
+    return None if h is None else h + [prev]
+
+
 class Script(object):
     """A scripted abstract header: concrete id, abstract options."""
 
@@ -242,6 +268,8 @@ class ReaderHarness(object):
         def readahead_stub(I_, fi, args, kwargs, node):
             i = st['k']
             st['k'] += 1
+            if i == st.get('det_prefix', 0) and st.get('det_prefix', 0) > 0:
+                I_.lock()          # the history before the analysed header is fixed from here on
             if i < len(script):
                 h = Unk('header%d' % i, kinds=['bytes'], taint=['INPUT'])
                 h.facts.add('truthy')
@@ -295,10 +323,13 @@ class ReaderHarness(object):
                 obj.attrs[name] = havoc_value(obj.attrs.get(name), name, summ)
         return obj
 
-    def run(self, script, entry=None, eof_after=True, inject=None):
-        """Yield (interp, path) for every path of iter_sections over the script."""
+    def run(self, script, entry=None, eof_after=True, inject=None, det_prefix=0):
+        """Yield (interp, path) for every path of iter_sections over the script.  With det_prefix=n the first n
+        headers are a fixed history: one feasible way through them is found and frozen, and only what follows varies
+        (paths that fail inside the history are not yielded)."""
         I = self.make_interp(script, eof_after)
         entry = entry or self.R.entry
+        I.k1['det_prefix'] = det_prefix
 
         def thunk():
             I.k1['k'] = 0
@@ -312,13 +343,15 @@ class ReaderHarness(object):
             I.frames = []
             return I.call_function(entry, [obj], {}, None, self_cls=self.R.cls)
         for path in I.explore(thunk):
+            if det_prefix and not path.reached_lock:
+                continue
             yield I, path
 
-    def paths(self, script, inject=None, eof_after=True, max_paths=4000):
+    def paths(self, script, inject=None, eof_after=True, max_paths=4000, det_prefix=0):
         """(list of paths, budget_exceeded)."""
         out = []
         I = None
-        for I, path in self.run(script, eof_after=eof_after, inject=inject):
+        for I, path in self.run(script, eof_after=eof_after, inject=inject, det_prefix=det_prefix):
             out.append(path)
             if len(out) >= max_paths:
                 return out, True
